@@ -30,6 +30,7 @@ pub fn all() -> Vec<Scenario> {
         Scenario { name: "mapref_reobserved_same_round_write", props: &["C01"], run: mapref_reobserved_same_round_write },
         Scenario { name: "mapref_stacked_reobserved", props: &["C01", "C06"], run: mapref_stacked_reobserved },
         Scenario { name: "height_panic_while_partly_linked", props: &["C19", "C04"], run: height_panic_while_partly_linked },
+        Scenario { name: "mapref_projection_runs_for_unneeded_node", props: &["C05"], run: mapref_projection_runs_for_unneeded_node },
         Scenario { name: "sibling_chain_bind", props: &["C02", "C03", "C04"], run: sibling_chain_bind },
         Scenario { name: "dead_rhs_node_height_adjust", props: &["C04"], run: dead_rhs_node_height_adjust },
         Scenario { name: "second_observer_spurious_changed", props: &["C09"], run: second_observer_spurious_changed },
@@ -733,6 +734,41 @@ fn height_panic_while_partly_linked() -> Result<(), String> {
             ));
         }
     }
+    Ok(())
+}
+
+fn mapref_projection_runs_for_unneeded_node() -> Result<(), String> {
+    let st = IncrState::new();
+    let v = st.var((1i64, 2i64));
+    let calls = Rc::new(Cell::new(0u32));
+    let c2 = calls.clone();
+    let mr = v.map_ref(move |p| {
+        c2.set(c2.get() + 1);
+        &p.0
+    });
+    let seen = Rc::new(RefCell::new(Vec::<String>::new()));
+    let s2 = seen.clone();
+    mr.on_update(move |u| {
+        s2.borrow_mut().push(match u {
+            incremental::NodeUpdate::Necessary(_) => "necessary".to_string(),
+            incremental::NodeUpdate::Changed(_) => "changed".to_string(),
+            incremental::NodeUpdate::Invalidated => "invalidated".to_string(),
+            incremental::NodeUpdate::Unnecessary => "unnecessary".to_string(),
+        })
+    });
+    let o = mr.observe();
+    st.stabilise();
+    check!(o.try_get_value() == Ok(1), "round1 {:?}", o.try_get_value());
+    drop(o);
+    calls.set(0);
+    // no observer is alive for this call: no node function may run, the projection included
+    st.stabilise();
+    check!(
+        calls.get() == 0,
+        "the projection function of a map_ref node ran {} time(s) in a stabilise without any live observer (its on_update handler saw {:?})",
+        calls.get(),
+        seen.borrow()
+    );
     Ok(())
 }
 
